@@ -44,8 +44,10 @@ def shim_programs():
     out.append(('shim:selfmod', [A.ref('BR', 'go'), A.lab('sp'), A.data(150000), A.lab('go'), A.imm('LDAC', 0x31313131), A.imm('STAM', 4), A.imm('LDAC', 0), A.imm('LDAC', 0), A.imm('LDAC', 0),
                                  A.ref('LDBM', 'sp'), A.imm('STAI', 2), A.imm('LDAC', 0), A.opr('SVC')]))
     # an image larger than 200000 bytes whose last words are used
-    big = [A.ref('BR', 'go'), A.lab('sp'), A.data(190000), A.lab('tab')] + [A.data(0)] * 52000 + [A.lab('last'), A.data(77), A.lab('go'),
-           A.ref('LDAM', 'last'), A.ref('LDBM', 'sp'), A.imm('STAI', 2), A.imm('LDAC', 0), A.imm('STAI', 3), A.imm('LDAC', 1), A.opr('SVC')] + exitv(5)
+    # (the table follows the code: a table in front would push the stack-pointer word out of word 1 through the long BR)
+    big = [A.ref('BR', 'go'), A.lab('sp'), A.data(190000), A.lab('go'),
+           A.ref('LDAM', 'last'), A.ref('LDBM', 'sp'), A.imm('STAI', 2), A.imm('LDAC', 0), A.imm('STAI', 3), A.imm('LDAC', 1), A.opr('SVC')] + exitv(5) + \
+          [A.lab('tab')] + [A.data(0)] * 52000 + [A.lab('last'), A.data(77)]
     out.append(('shim:bigimage', big))
     # read from a file stream whose file does not exist (end of file at once): 255
     out.append(('shim:fileeof', head + [A.imm('LDAC', 256), A.ref('LDBM', 'sp'), A.imm('STAI', 2), A.imm('LDAC', 2), A.opr('SVC'), A.ref('LDAM', 'sp'), A.imm('LDAI', 1),
